@@ -140,6 +140,22 @@ class BuiltinCalls:
                     return Bottom()
                 out = s if out is None else I.maybe_seq(self.concat(state, out, s, node), state)
             return replace(out, kind="iter") if out is not None else Seq(Length.const(0))
+        if q == "itertools.chain.from_iterable" and len(args) == 1:
+            outer = I.to_seq(args[0], state, node)
+            if outer is None:
+                return Bottom()
+            if outer.fixed is not None:
+                out = None
+                for a in outer.fixed:
+                    s = I.to_seq(a, state, node)
+                    if s is None:
+                        return Bottom()
+                    out = s if out is None else I.maybe_seq(self.concat(state, out, s, node), state)
+                return replace(out, kind="iter") if out is not None else Seq(Length.const(0))
+            inner = I.to_seq(subst_val(outer.elem, {outer.kvar: STAR}), state, node) if outer.length.hi != 0 else None
+            if inner is None:
+                return Seq(Length.const(0)) if outer.length.hi == 0 else Bottom()
+            return Seq(Length(None, 0, INF), subst_val(inner.elem, {inner.kvar: STAR}), "k", None, None, frozenset(inner.flags) | frozenset(outer.flags) | {"flattened", "unmodelled"}, "iter")
         if q == "itertools.accumulate" or q.startswith("itertools."):
             I.note_undecided(f"{q} not modelled", node)
             return Top(q)
